@@ -157,11 +157,27 @@ impl EpochRun {
             ev.insert("dpost".into(), json!(""));
         } else {
             let dpre = self.w.digest();
+            let mut reconf_genesis = self.genesis;
             let rs = match (op, self.kind.as_str()) {
                 ("create", "manager") => self.w.exec(&sender, &self.clock.clone(), &ExecuteMsg::CreateEpoch {}, &[]),
                 ("create", _) => self.w.exec(&sender, &self.clock.clone(), &white_whale_std::fee_distributor::ExecuteMsg::NewEpoch {}, &[]),
                 // the admin re-configures the clock: a new duration from now on (x = "<duration ns>" or "<duration ns>+owner" when
                 // the message also names the - unchanged - owner)
+                // the distributor's owner re-configures its clock: a new duration, and - the message has no optional parts - a
+                // genesis time, either the one in force or (x = "<duration ns>+genesis") the time of the change.  Once an epoch
+                // exists the genesis says nothing any more: the next epoch starts where the current one ends
+                ("reconfig", "distributor") => {
+                    let new_genesis = x.ends_with("+genesis");
+                    let d: u64 = x.trim_end_matches("+genesis").parse().unwrap();
+                    let g = if new_genesis { self.w.now_nanos() } else { self.genesis };
+                    reconf_genesis = g;
+                    let no_epoch_yet = self.obs()["id"].as_str().map(|i| i == "0").unwrap_or(false);
+                    let rs = self.w.exec(&sender, &self.clock.clone(), &white_whale_std::fee_distributor::ExecuteMsg::UpdateConfig {
+                        owner: None, bonding_contract_addr: None, fee_collector_addr: None, grace_period: None, distribution_asset: None,
+                        epoch_config: Some(EpochConfig { duration: Uint64::new(d), genesis_epoch: Uint64::new(g) }) }, &[]);
+                    if rs.is_ok() { self.dur = d; if no_epoch_yet { self.genesis = g; } }
+                    rs
+                }
                 ("reconfig", _) => {
                     let with_owner = x.ends_with("+owner");
                     let d: u64 = x.trim_end_matches("+owner").parse().unwrap();
@@ -183,7 +199,7 @@ impl EpochRun {
                 }
             };
             let dpost = self.w.digest();
-            ev.insert("args".into(), if op == "reconfig" { json!({"x": x, "dur": x.trim_end_matches("+owner")}) } else { json!({"x": x}) });
+            ev.insert("args".into(), if op == "reconfig" { json!({"x": x, "dur": x.trim_end_matches("+owner").trim_end_matches("+genesis"), "genesis": reconf_genesis.to_string()}) } else { json!({"x": x}) });
             ev.insert("res".into(), json!(rs.tag()));
             ev.insert("err".into(), jerr(&rs.err()));
             ev.insert("dpre".into(), json!(dpre));
@@ -250,6 +266,12 @@ pub fn run_random(rec: &mut Rec, seed: u64, run: u64, kind: &str, nops: usize) {
                 let op = if r.gen_bool(0.6) { "addhook" } else { "removehook" };
                 let by_owner = r.gen_bool(0.8);
                 p.step(rec, run, step, op, h, by_owner)
+            }
+            80..=86 => {
+                let d = *gen::pick(&mut r, &DURS);
+                let x = format!("{}{}", d, if r.gen_bool(0.6) { "+genesis" } else { "" });
+                let by_owner = r.gen_bool(0.8);
+                p.step(rec, run, step, "reconfig", &x, by_owner)
             }
             _ => p.step(rec, run, step, "tick", "plus1", true),
         }
